@@ -142,7 +142,9 @@ func ruleC17(w *World, r *Report) {
 			return f.Op == "<=" && f.L.String() == "$3.GasUsed" && f.R.String() == "$3.GasLimit"
 		})
 		k.need(fi, "C17.gas/window", "success requires |parent.gasLimit - gasLimit| < parent.gasLimit/256", "the gas-limit change window is not enforced", func(f Fact) bool {
-			return f.Op == "<" && strings.HasPrefix(f.L.String(), "conv:uint64(") && strings.Contains(f.L.String(), "$2.Header.GasLimit") && strings.Contains(f.L.String(), "$3.GasLimit") && f.R.String() == "($2.Header.GasLimit / const(256))"
+			// the absolute difference may be computed inline or by a helper: it must be
+			// built from exactly the two gas limits and bounded by parent/256
+			return f.Op == "<" && strings.Contains(f.L.String(), "$2.Header.GasLimit") && strings.Contains(f.L.String(), "$3.GasLimit") && f.R.String() == "($2.Header.GasLimit / const(256))"
 		})
 		k.need(fi, "C17.gas/min", "success requires gasLimit >= 5000", "the minimum gas limit is not enforced", func(f Fact) bool {
 			return f.Op == "<=" && f.L.String() == "const(5000)" && f.R.String() == "$3.GasLimit"
@@ -322,25 +324,25 @@ func ruleC17(w *World, r *Report) {
 		}
 		// rotation
 		nRot := 0
-		for _, b := range fi.Fn.Blocks {
-			for _, in := range b.Instrs {
-				st, ok := in.(*ssa.Store)
-				if !ok || fi.T.Of(st.Addr).String() != cs.String()+".Validators" {
+		// the replacement may live in update() itself or in a same-package helper it calls
+		for _, ds := range k.deepStores(fi, 2, func(a *Term) bool { return a.String() == cs.String()+".Validators" }) {
+			st := ds.Store
+			sfi := ds.Scope.Fi
+			nRot++
+			want := "conv:uint64((builtin.len(" + cs.String() + ".Validators) / const(2)))"
+			okG := false
+			for _, f := range k.factsAtScoped(fi, ds.Scope, st) {
+				if f.Op != "==" {
 					continue
 				}
-				nRot++
-				want := "conv:uint64((builtin.len(" + cs.String() + ".Validators) / const(2)))"
-				okG := fi.HasFact(b, func(f Fact) bool {
-					if f.Op != "==" {
-						return false
-					}
-					rem := "(" + num + " % " + cs.String() + ".Epoch)"
-					return (f.L.String() == rem && f.R.String() == want) || (f.R.String() == rem && f.L.String() == want)
-				})
-				r.Check(okG, "C17.update/rotation.when", "GUARD-DOM", fn, fi.InstrPos(in), "validator set replaced exactly at number mod Epoch == len(current validators)/2", "the validator set is replaced under a different condition than 'number mod Epoch == len(CURRENT validators)/2' (e.g. measured on the pending set): the announced set takes effect at the wrong height when the set size changes")
-				v := fi.T.Of(st.Val).String()
-				r.Check((strings.Contains(v, "GetPendingValidators($0,$1)") || (strings.Contains(v, "$1.Get(") && strings.Contains(v, "PrefixPendingValidators"))) && strings.HasSuffix(v, ".Validators"), "C17.update/rotation.value", "BIND", fn, fi.InstrPos(in), "new validator set = stored pending validators (in announced order)", "new validator set is "+clip(v)+", expected the stored pending validators")
+				rem := "(" + num + " % " + cs.String() + ".Epoch)"
+				if (f.L.String() == rem && f.R.String() == want) || (f.R.String() == rem && f.L.String() == want) {
+					okG = true
+				}
 			}
+			r.Check(okG, "C17.update/rotation.when", "GUARD-DOM", fn, sfi.InstrPos(st), "validator set replaced exactly at number mod Epoch == len(current validators)/2", "the validator set is replaced under a different condition than 'number mod Epoch == len(CURRENT validators)/2' (e.g. measured on the pending set): the announced set takes effect at the wrong height when the set size changes")
+			v := sfi.T.Of(st.Val).String()
+			r.Check((strings.Contains(v, "GetPendingValidators($0,$1)") || (strings.Contains(v, "$1.Get(") && strings.Contains(v, "PrefixPendingValidators"))) && strings.HasSuffix(v, ".Validators"), "C17.update/rotation.value", "BIND", fn, sfi.InstrPos(st), "new validator set = stored pending validators (in announced order)", "new validator set is "+clip(v)+", expected the stored pending validators")
 		}
 		r.Check(nRot == 1, "C17.update/rotation", "MUST-PASS", fn, w.Pos(fi.Fn.Pos()), "one validator-set replacement site", fmt.Sprintf("%d validator-set replacement sites", nRot))
 		for _, c := range fi.Calls(func(c *ssa.CallCommon) bool { f := c.StaticCallee(); return f != nil && f.Name() == "SetPendingValidators" }) {
